@@ -62,8 +62,12 @@ CHECKS = {
         "against a canonical enumeration; Pascal rule proved). For the right-hand sides "
         "(transcribed incl. the nk*jj>=0 / jj>0 guards and Python's index -1) over any commutative *-ring: the trace of ADO 0 "
         "is conserved exactly and all ADOs stay Hermitian at every stored time for every expansion order and step; with zero "
-        "reorganisation energies higher ADOs stay zero and ADO 0 obeys the closed-system equation. Validated only: convergence "
-        "with depth to exp(-i w t - g(t)) for uncoupled sites and the closed-system limit against expm.",
+        "reorganisation energies higher ADOs stay zero and ADO 0 obeys the closed-system equation. For uncoupled sites (diagonal "
+        "Hamiltonian and diagonal system parts of the couplings; checked on the real objects): populations of the reduced density matrix "
+        "are constant for every depth, step, order and number of steps, and every matrix element of every ADO at every stored time "
+        "is the propagation of its own scalar hierarchy (the matrix hierarchy decouples element by element - the reason the model is "
+        "exactly solvable). Validated only: convergence of that scalar hierarchy with depth to exp(-i w t - g(t)) (aggregates and "
+        "multi-level molecules with baths on a subset of transitions) and the closed-system limit against expm.",
    note=TB + "All C16 theorems closed under the global context. Tie: tables of real KTHierarchy objects compared exactly in Coq; "
         "right-hand sides compared exactly on Gaussian-integer inputs. Static tie: harness/translate2.py (template unification, fail-closed) joins the trusted base.",
    design="7/C16", technique="Coq proof (induction over levels, NoDup/sortedness of the table, ring algebra for the RHS) + exact in-Coq correspondence + statement-level translator (generate_indices, _make_nmp1, _make_Gamma, _convert_2_matrix, the propagate() loop nest and both right-hand sides _ado_self_rhs / _ado_cros_rhs - guards nk*jj >= 0 and jj > 0, the negative-index read, all terms - regenerated from the source, equivalence lemmas to Model/C16.v re-proved every run)"),
